@@ -184,6 +184,11 @@ func (t *T) ResetLog()    { t.Log = nil; t.occ = map[string]int{} }
 
 func (t *T) Setenv(k, v string) { os.Setenv(k, v) }
 
+// EnvOther declares the environment adversarial: a variable the harness did
+// not set may be unset or hold v. (Natively the variables a counterexample
+// names arrive in the case as "env:NAME" entries.)
+func (t *T) EnvOther(v string) {}
+
 func fmtVal(v interface{}) string {
 	switch x := v.(type) {
 	case nil:
@@ -361,6 +366,12 @@ func runOne(c Case) (o Outcome) {
 		return
 	}
 	t := New(c.Model)
+	for k, v := range c.Model {
+		if len(k) > 4 && k[:4] == "env:" {
+			os.Setenv(k[4:], v)
+			defer os.Unsetenv(k[4:])
+		}
+	}
 	defer func() {
 		if t.saved != nil {
 			t.StdoutEnd()
